@@ -35,7 +35,7 @@ def BOUNDS(tier):
 
 
 def REQUIRED_COVER(tier):
-    return {'opt:plain', 'opt:idx+crc+cache', 'enc:b64', 'enc:HEX', 'entry:Builder', 'entry:Slice', 'exotic', 'cells:257', 'payload:65536', 'objects', 'failure-history'}
+    return {'opt:plain', 'opt:idx+crc+cache', 'enc:b64', 'enc:HEX', 'entry:Builder', 'entry:Slice', 'exotic', 'cells:257', 'payload:65536', 'objects', 'failure-history', 'builder-reuse'}
 
 
 def shards(tier, seed, objects=True):
@@ -49,6 +49,7 @@ def shards(tier, seed, objects=True):
     if objects:
         out += [{'fn': 'shard_objects', 'args': {'part': p, 'parts': 8}} for p in range(8)]
         out.append({'fn': 'shard_failure_histories', 'args': {}})
+        out.append({'fn': 'shard_builder_reuse', 'args': {}})
     return out
 
 
@@ -229,6 +230,62 @@ def shard_failure_histories(rec):
                         continue
                     rec.outcome('ok')
     rec.covered('failure-history')
+
+
+def shard_builder_reuse(rec):
+    """wave 10: ONE builder yields a cell, goes on storing (a reference / a cell / a slice / an optional reference / a dictionary / bits) and
+    yields another one.  Both cells - the earlier one inspected AFTER the builder went on - serialise under every option set and parse back
+    (three entry points) to the trees they are."""
+    from pytoniq_core.boc import Cell, Slice, Builder
+    leaf = RC.RCell('1011')
+    kid = RC.RCell('0110', (leaf,))
+    base_refs = [(), (leaf,), (kid, leaf), (leaf, kid, leaf)]
+    steps_ = ['store_ref', 'store_cell', 'store_slice', 'store_maybe_ref', 'store_dict', 'store_bits']
+    for refs in base_refs:
+        for step in steps_:
+            rec.case('builder-reuse')
+            rec.state(('builder-reuse', len(refs), step))
+            rec.nontriv(('builder-reuse', len(refs), step))
+            b = Builder().store_bits('110')
+            for r in refs:
+                b.store_ref(to_lib(r))
+            first = b.end_cell()
+            want_first = RC.RCell('110', tuple(refs))
+            extra = to_lib(kid)
+            if step == 'store_ref':
+                b.store_ref(extra); want_second = RC.RCell('110', tuple(refs) + (kid,))
+            elif step == 'store_cell':
+                b.store_cell(to_lib(RC.RCell('01', (kid,)))); want_second = RC.RCell('11001', tuple(refs) + (kid,))
+            elif step == 'store_slice':
+                b.store_slice(to_lib(RC.RCell('01', (kid,))).begin_parse()); want_second = RC.RCell('11001', tuple(refs) + (kid,))
+            elif step == 'store_maybe_ref':
+                b.store_maybe_ref(extra); want_second = RC.RCell('1101', tuple(refs) + (kid,))
+            elif step == 'store_dict':
+                b.store_dict(extra); want_second = RC.RCell('1101', tuple(refs) + (kid,))
+            else:
+                b.store_bits('0101'); want_second = RC.RCell('1100101', tuple(refs))
+            second = b.end_cell()
+            for which, cell, want in (('first (taken before the builder went on)', first, want_first), ('second', second, want_second)):
+                for opts in bocfam.OPTION_SETS:
+                    rec.trans()
+                    args = {'refs': len(refs), 'step': step}
+                    try:
+                        data = cell.to_boc(**opts)
+                        for ename, parse in (('Cell', lambda d: Cell.one_from_boc(d)), ('Slice', lambda d: Slice.one_from_boc(d).to_cell()), ('Builder', lambda d: Builder.one_from_boc(d).end_cell())):
+                            got = parse(data)
+                            if got.hash != want.hash() or lib_canon(got) != RC.canon(want) or cell.hash != want.hash() or lib_canon(cell) != RC.canon(want):
+                                rec.violation('builder-reuse:tree', f'builder with {len(refs)} refs, end_cell, {step}, end_cell: the {which} cell [{bocfam.opt_name(opts)}, {ename}] is / round-trips to '
+                                              f'another tree than the one it was taken as', 'shard_builder_reuse', args)
+                                raise StopIteration
+                    except StopIteration:
+                        break
+                    except Exception as e:
+                        rec.violation('builder-reuse:raises', f'builder with {len(refs)} refs, end_cell, {step}, end_cell: the {which} cell [{bocfam.opt_name(opts)}]: {exc_name(e)}: {e}',
+                                      'shard_builder_reuse', args)
+                        break
+                    rec.trace()
+            rec.outcome('ok')
+    rec.covered('builder-reuse')
 
 
 def shard_names(rec, part, parts):
